@@ -1,7 +1,7 @@
 (* Property C08 - only statements, each closed by [exact]. *)
 From Coq Require Import NArith List Bool Sorting.Sorted Permutation.
 Import ListNotations.
-Require Import UV.C08.Model UV.C08.Proofs UV.C08.Figures UV.C08.Open UV.C08.Order UV.C08.Checker UV.C08.OpenSpec UV.C08.SortChecker UV.C08.Merge UV.C08.Lost UV.C08.LostSpec UV.C08.Inherit.
+Require Import UV.C08.Model UV.C08.Proofs UV.C08.Figures UV.C08.Open UV.C08.Order UV.C08.Checker UV.C08.OpenSpec UV.C08.SortChecker UV.C08.Merge UV.C08.Lost UV.C08.LostSpec UV.C08.Inherit UV.C08.SelfDiff.
 Local Open Scope N_scope.
 
 (* The accumulation automaton of fstack_account_time + report_update_node (uint64 arithmetic, clamp
@@ -132,6 +132,14 @@ Theorem C08_self_diff_zero : forall c,
   /\ forallb diff_is_zero (map diff_cols (diff_pairs (report c) (report c))) = true.
 Proof. exact (fun c => diff_self_zero (report c) (report_names_sorted c)). Qed.
 Print Assumptions C08_self_diff_zero.
+
+(* ... as printed: `uftrace report --diff DIR` with DIR the data set itself lists every function once and every
+   difference cell is the zero cell ("0 us", "+0"). *)
+Theorem C08_self_diff_stdout : forall c,
+  Permutation (map fst (diff_stdout (report c) (report c))) (map n_name (report c))
+  /\ Forall (fun l => snd l = [None; None; None]) (diff_stdout (report c) (report c)).
+Proof. exact (fun c => diff_stdout_self (report c) (report_names_sorted c)). Qed.
+Print Assumptions C08_self_diff_stdout.
 
 (* The printed time is the value truncated to its unit (us, ms, s, m = 60 s, h = 60 m) for every value below
    1000 hours (exact below 1 ms). *)
